@@ -407,6 +407,23 @@ def c06_identifier_collides_with_placeholder():
     return _only_syntax_error("program p\nx = (F2PY_EXPR_TUPLE_7 + 1)\nend program p\n")
 
 
+def c16_block_inside_nonblock_do_gets_two_tables():
+    """D48"""
+    from fparser.two.symbol_table import SYMBOL_TABLES
+    _parser("f2008")(_reader("subroutine w(a)\n real a(3)\n do 10 i=1,3\n block\n integer :: sum\n sum = 1\n end block\n10 a(i) = 1\nend subroutine w\n"))
+    kids = [c.name for c in SYMBOL_TABLES.lookup("w").children]
+    return len(kids) == 1, dict(child_tables=kids)
+
+
+def c16_derived_type_declaration_does_not_shadow():
+    """D49"""
+    from fparser.two import Fortran2003 as F
+    from fparser.two.utils import walk
+    t = _parser()(_reader("module m\n type thing\n integer :: k\n end type thing\ncontains\n subroutine s\n type(thing) :: size(3)\n x = size(1)\n end subroutine s\nend module m\n"))
+    wrong = [str(n) for n in walk(t, F.Intrinsic_Function_Reference)]
+    return not wrong, dict(parsed_as_intrinsic=wrong)
+
+
 def c14_directive_backslash_at_eof():
     """D9: a directive whose last line ends in a backslash at end of input is lost"""
     r = _reader("x = 1\n#define X \\\n")
